@@ -218,7 +218,14 @@ var agentDefs = []agentDef{
 	}},
 	{"gmmu", true, func() *agentInst {
 		a, reg := newInst("gmmu")
-		a.PageTable = smallPageTable()
+		// PID 1 lives on this device, PID 2 on device 2 (fetched through Bottom)
+		a.PageTable = vm.NewPageTable(12)
+		for pid := vm.PID(1); pid <= 2; pid++ {
+			for i := uint64(0); i < 4; i++ {
+				a.PageTable.Insert(vm.Page{PID: pid, VAddr: i * agentPageSize, PAddr: (uint64(pid)*16 + i) * agentPageSize,
+					PageSize: agentPageSize, Valid: true, DeviceID: uint64(pid)})
+			}
+		}
 		spec := gmmu.DefaultSpec()
 		spec.DeviceID = 1
 		spec.Latency = 1
